@@ -10,5 +10,5 @@ echo "seed=$NAME check=$CHECK tier=$TIER rc=$rc"; grep -E "^VIOLATION|KNOWN-FIND
 # restore evidence produced on the patched tree: it must not be committed
 git -C /verif checkout -- evidence 2>/dev/null
 # rebuild the harness from the clean tree so that later --no-build runs do not use the patched worker
-(cd /verif && python3 -c "from mon import common; common.build_harness(verbose=False)")
+(cd /verif && python3 -c "from mon import common; common.build_harness(verbose=False); common.build_bs(verbose=False)")
 exit $rc
